@@ -755,6 +755,20 @@ theorem parseComment_she (s : Stream) :
   refine ESimT.ite (fun _ => ESimT.lift (ESim.errFrom H)) (fun _ => ?_)
   refine ESimT.bind (ESimT.emit rfl) (fun _ _ => ESimT.pure rfl)
 
+theorem declConsumeSpaces_she (s : Stream) :
+    EOkTo g (sh k) (declConsumeSpaces T txt s) (declConsumeSpaces T txt' (sh k s)) := by
+  unfold declConsumeSpaces
+  have h1 : (sh k s).startsWithSpace T = s.startsWithSpace T := rfl
+  have h2 : (sh k s).startsWith Lit.piEnd = s.startsWith Lit.piEnd := rfl
+  have h3 : (sh k s).atEnd = s.atEnd := rfl
+  rw [h1, h2, h3, skipSpaces_sh]
+  refine ESim.ite (fun _ => EOkTo.ok rfl) (fun _ => ?_)
+  refine ESim.ite (fun _ => ?_) (fun _ => EOkTo.ok rfl)
+  simp only [sh_rest, sh_pos]
+  cases s.rest with
+  | nil => exact ESim.panic
+  | cons b r => exact ESim.errAt H
+
 theorem parsePi_she (s : Stream) :
     ESimT g k (sh k) (parsePi T txt s) (parsePi T txt' (sh k s)) := by
   unfold parsePi
@@ -764,7 +778,7 @@ theorem parsePi_she (s : Stream) :
   refine ESimT.bind (ESimT.lift (consumeName_she T H s1)) (fun a _ => ?_)
   obtain ⟨s2, target⟩ := a
   dsimp only
-  rw [skipSpaces_sh]
+  refine ESimT.bind (ESimT.lift (declConsumeSpaces_she T H s2)) (fun s2' _ => ?_)
   refine ESimT.bind (ESimT.lift (consumeChars_she T H _ _ (fun _ _ _ => rfl) _)) (fun a _ => ?_)
   obtain ⟨s3, content⟩ := a
   dsimp only
